@@ -98,7 +98,10 @@ class Call(Contract):
             h = ex.ctx.func("out_h", Idx, R)
             env["out"] = Arr(P.shape, lambda i: h(i), "real", ex.ctx.const("dt_out", DT), Region("fresh"))
         mods = ("out", "term", "tmp", "exponent", "coefficient", "power", "name")
-        return {3: LoopSpec(inv, havoc, modifies=mods, peel=1)}
+        def ghost(ex, env, k):
+            from engine.logic import unfold_at
+            return [unfold_at(k + 1)]
+        return {3: LoopSpec(inv, havoc, modifies=mods, peel=1, ghost=ghost)}
 
     def cases(self):
         for label, D, args, kwargs, outcome in binding_cases():
@@ -125,8 +128,10 @@ class Call(Contract):
                         out = out * rpow(pts[d], expo(P.row(t), d))
                     return out
                 ctx.assume(z3.ForAll([i], S(0, i) == 0))
+                from engine.logic import unfold_at
                 ctx.assume(z3.ForAll([k, i], z3.Implies(k >= 1, S(k, i) == S(k - 1, i) + P.C(k - 1, i) * T(k - 1)),
-                                     patterns=[S(k, i)]))
+                                     patterns=[z3.MultiPattern(S(k, i), unfold_at(k))]))
+                ctx.assume(unfold_at(1))
                 ex.ghost = {"P": P, "S": S, "pts": pts}
                 return {"poly": P, "args": tuple(val(v) for v in args),
                         "kwargs": None if kwargs is None else {n: val(v) for n, v in kwargs.items()}}
